@@ -23,6 +23,7 @@ type inputCase struct {
 	N       int      `json:"n"`                // leaves ever added
 	Alive   string   `json:"alive"`            // "1011": which are live
 	SynthN  uint64   `json:"synthN,omitempty"` // synthetic stump: NumLeaves (roots are fresh hashes)
+	Base    uint64   `json:"base,omitempty"`   // offset-start state: Base opaque leaves before the N added ones
 	Ver     string   `json:"verifier"`
 	Targets []uint64 `json:"targets"`
 	Hashes  []string `json:"hashes"`
@@ -139,6 +140,43 @@ func buildVinst(spec verSpec, s ref.State, synth *u.Stump) (*vinst, error) {
 	}
 	v.L = ref.APILayout(s)
 	v.stump = u.Stump{Roots: append([]Hash(nil), v.L.Roots...), NumLeaves: s.Total()}
+	if s.Base > 0 {
+		// offset-start state: only the roots-only verifier and a partial map forest started from
+		// bare roots (the added leaves are added and remembered, the dead ones deleted) can exist
+		switch spec.Kind {
+		case "verify", "update":
+			return v, nil
+		case "map", "partialproof":
+			if spec.Full {
+				return nil, nil
+			}
+			fam := &PartialFamily{Nmax: 64, TR: 63, Base: s.Base, Prop: "substrate"}
+			all := make([]int, s.N())
+			var dead []int
+			for i := range all {
+				all[i] = i
+				if !s.Alive[i] {
+					dead = append(dead, i)
+				}
+			}
+			var hist []Op
+			if s.N() > 0 {
+				hist = append(hist, Op{Kind: "block", Adds: s.N(), Rem: all})
+			}
+			if len(dead) > 0 {
+				hist = append(hist, Op{Kind: "block", Dels: dead, Rem: []int{}})
+			}
+			x := NewExec("substrate", func() Case { return Case{} })
+			m, _, ok := fam.run(x, hist)
+			if !ok {
+				return nil, fmt.Errorf("offset-start partial forest could not be built")
+			}
+			v.m = m
+			v.setLT()
+			return v, nil
+		}
+		return nil, nil
+	}
 	N := s.N()
 	all := ref.State{Alive: make([]bool, N)}
 	var dead []int
@@ -305,6 +343,7 @@ func inputsEval(v *vinst, hs []Hash, p u.Proof, rep func(prop, sig, detail strin
 // the referenced slices are not changing.
 type rawCase struct {
 	n       int
+	base    uint64
 	alive   string
 	synthN  uint64
 	ver     string
@@ -314,7 +353,7 @@ type rawCase struct {
 }
 
 func (r *rawCase) toCase() inputCase {
-	return inputCase{N: r.n, Alive: r.alive, SynthN: r.synthN, Ver: r.ver, Targets: append([]uint64(nil), r.targets...), Hashes: hexHs(r.hashes), Proof: hexHs(r.proof)}
+	return inputCase{N: r.n, Base: r.base, Alive: r.alive, SynthN: r.synthN, Ver: r.ver, Targets: append([]uint64(nil), r.targets...), Hashes: hexHs(r.hashes), Proof: hexHs(r.proof)}
 }
 
 type inWorker struct {
@@ -486,8 +525,11 @@ func specByID(id string) (verSpec, bool) {
 	return verSpec{}, false
 }
 
+// aliveKey is the alive bit string of the added leaves (without the base prefix of State.Key).
+func aliveKey(s ref.State) string { return boolKey(s.Alive) }
+
 func stateOfCase(cs inputCase) ref.State {
-	s := ref.State{Alive: make([]bool, len(cs.Alive))}
+	s := ref.State{Base: cs.Base, Alive: make([]bool, len(cs.Alive))}
 	for i, ch := range cs.Alive {
 		s.Alive[i] = ch == '1'
 	}
@@ -566,6 +608,82 @@ func hashAlphabet(s ref.State, L *ref.Layout) []Hash {
 	return alpha
 }
 
+// offsetAlphabets: closed alphabets for a large offset-start state: hashes = zero, the first two
+// and last two root hashes, every added node's hash, a dead leaf, a fresh hash; targets = the
+// positions of those nodes, their siblings and parents, the first positions, the positions
+// around the leaf count, row starts of the top rows and giants.
+func offsetAlphabets(s ref.State, L *ref.Layout) (alpha []Hash, tvals []uint64) {
+	alpha = []Hash{ref.Zero}
+	seenH := map[Hash]bool{ref.Zero: true}
+	tset := map[uint64]bool{}
+	addH := func(h Hash) {
+		if !seenH[h] {
+			seenH[h] = true
+			alpha = append(alpha, h)
+		}
+	}
+	addP := func(p uint64) {
+		tset[p] = true
+		tset[p^1] = true
+		if pp, ok := L.Parent[p]; ok {
+			tset[pp] = true
+		}
+	}
+	for i, rp := range L.RootPos {
+		if i < 2 || i >= len(L.RootPos)-2 {
+			addH(L.Roots[i])
+			addP(rp)
+		}
+	}
+	var ps []uint64
+	for p := range L.At {
+		if _, opaque := L.Opaque[p]; !opaque {
+			ps = append(ps, p)
+		}
+	}
+	sort.Slice(ps, func(i, j int) bool { return ps[i] < ps[j] })
+	// the added leaves, and of the chain of nodes the additions created only the lowest three and
+	// the highest two (a 2^32-1 base grows a chain of 32 new nodes)
+	var inner []uint64
+	for _, p := range ps {
+		if _, leaf := L.IsLeaf[p]; leaf {
+			addH(L.At[p])
+			addP(p)
+		} else {
+			inner = append(inner, p)
+		}
+	}
+	for i, p := range inner {
+		if i < 3 || i >= len(inner)-2 {
+			addH(L.At[p])
+			addP(p)
+		}
+	}
+	for i := 0; i < s.N(); i++ {
+		if !s.Alive[i] {
+			addH(ref.LeafHash(i))
+			break
+		}
+	}
+	addH(ref.FreshHash(7))
+	n := s.Total()
+	for _, x := range []uint64{0, 1, 2, n - 2, n - 1, n, n + 1, 1 << 31, 1 << 32, 1<<32 + 1, 1 << 63, ^uint64(0)} {
+		tset[x] = true
+	}
+	for r := L.R; r+2 >= L.R && r <= L.R; r-- {
+		st := ref.RowStart(r, L.R)
+		tset[st], tset[st-1] = true, true
+		if r == 0 {
+			break
+		}
+	}
+	for t := range tset {
+		tvals = append(tvals, t)
+	}
+	sort.Slice(tvals, func(i, j int) bool { return tvals[i] < tvals[j] })
+	return
+}
+
 func targetAlphabet(R uint8) []uint64 {
 	var tv []uint64
 	for p := uint64(0); p < (uint64(2)<<R)+3; p++ {
@@ -579,8 +697,9 @@ func targetAlphabet(R uint8) []uint64 {
 type tripleCfg struct {
 	Nmin, Nin, T, P int
 	Vers            []verSpec
-	Mismatch        bool       // also lists with len(hashes) != len(targets) (C04)
-	Only            *inputCase // replay: only the task of this case
+	Mismatch        bool        // also lists with len(hashes) != len(targets) (C04)
+	Only            *inputCase  // replay: only the task of this case
+	States          []ref.State // when set, these states instead of all states with Nmin<=N<=Nin
 }
 
 // enumTriples enumerates, for every state with Nmin<=N<=Nin and every verifier, every
@@ -593,20 +712,33 @@ func enumTriples(c *Ctx, cfg tripleCfg, props map[string]bool) {
 	}
 	var tasks []task
 	nstates := 0
-	for N := cfg.Nmin; N <= cfg.Nin; N++ {
-		for mask := 0; mask < 1<<uint(N); mask++ {
-			s := ref.State{Alive: make([]bool, N)}
-			for i := 0; i < N; i++ {
-				s.Alive[i] = mask&(1<<uint(i)) != 0
+	states := cfg.States
+	if states == nil {
+		for N := cfg.Nmin; N <= cfg.Nin; N++ {
+			for mask := 0; mask < 1<<uint(N); mask++ {
+				s := ref.State{Alive: make([]bool, N)}
+				for i := 0; i < N; i++ {
+					s.Alive[i] = mask&(1<<uint(i)) != 0
+				}
+				states = append(states, s)
 			}
+		}
+	}
+	{
+		for _, s := range states {
+			N := s.N()
 			nstates++
 			nt := len(targetAlphabet(ref.RowsFor(uint64(N))))
+			if s.Base > 0 {
+				_, tv := offsetAlphabets(s, ref.APILayout(s))
+				nt = len(tv)
+			}
 			for _, spec := range cfg.Vers {
 				for t0 := -1; t0 < nt; t0++ {
 					if cfg.T == 0 && t0 >= 0 {
 						break
 					}
-					if o := cfg.Only; o != nil && (o.Alive != s.Key() || o.N != N || o.Ver != spec.ID || o.Task.T0 != t0) {
+					if o := cfg.Only; o != nil && (o.Alive != aliveKey(s) || o.Base != s.Base || o.N != N || o.Ver != spec.ID || o.Task.T0 != t0) {
 						continue
 					}
 					tasks = append(tasks, task{s, spec, t0})
@@ -624,11 +756,16 @@ func enumTriples(c *Ctx, cfg tripleCfg, props map[string]bool) {
 			c.Col.Note("inputs: instance could not be built: " + tk.spec.ID)
 			return
 		}
-		alpha := hashAlphabet(tk.s, v.L)
-		tvals := targetAlphabet(v.L.R)
-		aliveKey := tk.s.Key()
+		var alpha []Hash
+		var tvals []uint64
+		if tk.s.Base > 0 {
+			alpha, tvals = offsetAlphabets(tk.s, v.L)
+		} else {
+			alpha, tvals = hashAlphabet(tk.s, v.L), targetAlphabet(v.L.R)
+		}
+		aliveKey := aliveKey(tk.s)
 		var evals, accepted int64
-		cs := &inputCase{N: tk.s.N(), Alive: aliveKey, Ver: tk.spec.ID}
+		cs := &inputCase{N: tk.s.N(), Base: tk.s.Base, Alive: aliveKey, Ver: tk.spec.ID}
 		try := func(targets []uint64, hashes []Hash) {
 			// proofs of every length 0..P over the alphabet
 			pr := make([]Hash, 0, cfg.P)
@@ -638,6 +775,7 @@ func enumTriples(c *Ctx, cfg tripleCfg, props map[string]bool) {
 					return
 				}
 				w.publish(cs.Ver, cs.N, cs.Alive, 0, targets, hashes, pr)
+				w.raw.base = cs.Base
 				if v.dirty {
 					nv, err := buildVinst(tk.spec, tk.s, nil)
 					if err != nil || nv == nil {
@@ -649,7 +787,7 @@ func enumTriples(c *Ctx, cfg tripleCfg, props map[string]bool) {
 				p := u.Proof{Targets: targets, Proof: pr}
 				if inputsEval(v, hashes, p, func(prop, sig, detail string) {
 					if props[prop] {
-						c.Col.Add(Violation{Prop: prop, Sig: sig, Detail: detail, Case: mkCase("inputs", inputCase{N: cs.N, Alive: cs.Alive, Ver: cs.Ver, Targets: append([]uint64(nil), targets...), Hashes: hexHs(hashes), Proof: hexHs(pr)})})
+						c.Col.Add(Violation{Prop: prop, Sig: sig, Detail: detail, Case: mkCase("inputs", inputCase{N: cs.N, Base: cs.Base, Alive: cs.Alive, Ver: cs.Ver, Targets: append([]uint64(nil), targets...), Hashes: hexHs(hashes), Proof: hexHs(pr)})})
 					} else {
 						c.Col.Note("other:" + prop + " " + sig)
 					}
@@ -843,25 +981,33 @@ func enumEdits(c *Ctx, Nlo, Nhi, K int, double bool, vers []verSpec, props map[s
 }
 
 func enumEditsOnly(c *Ctx, Nlo, Nhi, K int, double bool, vers []verSpec, props map[string]bool, only *inputCase) {
-	type task struct {
-		s    ref.State
-		spec verSpec
-	}
-	var tasks []task
-	nstates := 0
+	var states []ref.State
 	for N := Nlo; N <= Nhi; N++ {
 		for mask := 1; mask < 1<<uint(N); mask++ {
 			s := ref.State{Alive: make([]bool, N)}
 			for i := 0; i < N; i++ {
 				s.Alive[i] = mask&(1<<uint(i)) != 0
 			}
-			nstates++
-			for _, sp := range vers {
-				if only != nil && (only.Alive != s.Key() || only.Ver != sp.ID) {
-					continue
-				}
-				tasks = append(tasks, task{s, sp})
+			states = append(states, s)
+		}
+	}
+	enumEditsStates(c, states, K, double, vers, props, only)
+}
+
+func enumEditsStates(c *Ctx, states []ref.State, K int, double bool, vers []verSpec, props map[string]bool, only *inputCase) {
+	type task struct {
+		s    ref.State
+		spec verSpec
+	}
+	var tasks []task
+	nstates := 0
+	for _, s := range states {
+		nstates++
+		for _, sp := range vers {
+			if only != nil && (only.Alive != aliveKey(s) || only.Base != s.Base || only.Ver != sp.ID) {
+				continue
 			}
+			tasks = append(tasks, task{s, sp})
 		}
 	}
 	c.Cov.AddStates(int64(nstates))
@@ -872,14 +1018,20 @@ func enumEditsOnly(c *Ctx, Nlo, Nhi, K int, double bool, vers []verSpec, props m
 		if err != nil || v == nil {
 			return
 		}
-		alpha := hashAlphabet(tk.s, v.L)
-		tvals := targetAlphabet(v.L.R)
+		var alpha []Hash
+		var tvals []uint64
+		if tk.s.Base > 0 {
+			alpha, tvals = offsetAlphabets(tk.s, v.L)
+		} else {
+			alpha, tvals = hashAlphabet(tk.s, v.L), targetAlphabet(v.L.R)
+		}
 		var evals, accepted int64
 		eval := func(ts []uint64, hs []Hash, pr []Hash) {
 			if w.stop(c) {
 				return
 			}
-			w.publish(tk.spec.ID, tk.s.N(), tk.s.Key(), 0, ts, hs, pr)
+			w.publish(tk.spec.ID, tk.s.N(), aliveKey(tk.s), 0, ts, hs, pr)
+			w.raw.base = tk.s.Base
 			if v.dirty {
 				v, _ = buildVinst(tk.spec, tk.s, nil)
 			}
@@ -997,6 +1149,35 @@ func enumEditsOnly(c *Ctx, Nlo, Nhi, K int, double bool, vers []verSpec, props m
 	})
 }
 
+// offsetStates: Base in bases, 0..nAdd added leaves, every alive subset.
+func offsetStates(bases []uint64, nAdd int) []ref.State {
+	var out []ref.State
+	for _, b := range bases {
+		for n := 0; n <= nAdd; n++ {
+			if b+uint64(n) > uint64(1)<<63 {
+				break
+			}
+			for mask := 0; mask < 1<<uint(n); mask++ {
+				s := ref.State{Base: b, Alive: make([]bool, n)}
+				for i := 0; i < n; i++ {
+					s.Alive[i] = mask&(1<<uint(i)) != 0
+				}
+				out = append(out, s)
+			}
+		}
+	}
+	return out
+}
+
+// offsetVerifiers are the entry points that can exist on an accumulator started from bare roots.
+func offsetVerifiers(update bool) []verSpec {
+	ids := []string{"Verify", "MapPollard(partial:all,TR=63).Verify(remember=false)", "MapPollard(partial:all,TR=63).Verify(remember=true)", "MapPollard(partial:none,TR=63).VerifyPartialProof(remember=false)"}
+	if update {
+		ids = append(ids, "Stump.Update+0", "Stump.Update+2")
+	}
+	return pickVers(ids...)
+}
+
 func init() {
 	Engines["inputs"] = func(prop string, payload json.RawMessage) ([]Violation, error) {
 		var cs inputCase
@@ -1015,9 +1196,9 @@ func init() {
 			}
 			switch cs.Task.Kind {
 			case "triples":
-				enumTriples(c, tripleCfg{Nmin: cs.N, Nin: cs.N, T: cs.Task.T, P: cs.Task.P, Mismatch: cs.Task.Mismatch, Vers: []verSpec{spec}, Only: &cs}, map[string]bool{})
+				enumTriples(c, tripleCfg{States: []ref.State{stateOfCase(cs)}, T: cs.Task.T, P: cs.Task.P, Mismatch: cs.Task.Mismatch, Vers: []verSpec{spec}, Only: &cs}, map[string]bool{})
 			case "edits":
-				enumEditsOnly(c, cs.N, cs.N, cs.Task.K, cs.Task.Double, []verSpec{spec}, map[string]bool{}, &cs)
+				enumEditsStates(c, []ref.State{stateOfCase(cs)}, cs.Task.K, cs.Task.Double, []verSpec{spec}, map[string]bool{}, &cs)
 			}
 			replayHang = false
 			return nil, nil // the task ran to completion: not reproduced
@@ -1067,6 +1248,16 @@ func init() {
 		Ne, K := pick(c, 6, 8), pick(c, 3, 3)
 		c.Cov.Bound["edits"] = fmt.Sprintf("single edits of honest proofs of <=%d leaves, N in 4..%d, all verifiers", K, Ne)
 		enumEdits(c, 4, Ne, K, false, sound, props)
+		// offset-start states: accumulators of 2^5 .. 2^63-4 leaves (synthetic opaque trees) plus up
+		// to two added leaves; the reference forest knows the roots and every added node, and every
+		// claim about any other position is false (no preimage is in the alphabet)
+		ost := offsetStates(offsetBases(c.Thorough()), 2)
+		c.Cov.Bound["offset_start"] = fmt.Sprintf("%d states (bases %v, 0..2 added leaves): triples T<=1 P<=2 (thorough: also T<=2 P=0 on the quick base list); single edits of honest proofs (up to 63 proof hashes)", len(ost), offsetBases(c.Thorough()))
+		enumTriples(c, tripleCfg{States: ost, T: 1, P: 2, Vers: offsetVerifiers(false)}, props)
+		if c.Thorough() {
+			enumTriples(c, tripleCfg{States: offsetStates(offsetBases(false), 2), T: 2, P: 0, Vers: offsetVerifiers(false)[:2]}, props)
+		}
+		enumEditsStates(c, ost, 2, false, offsetVerifiers(false), props, nil)
 		if c.Thorough() {
 			c.Cov.Bound["double_edits"] = "pairs of edits of honest proofs of <=2 leaves, N in 3..6, Verify/Pollard.Verify/MapPollard"
 			enumEdits(c, 3, 6, 2, true, main, props)
@@ -1094,5 +1285,9 @@ func init() {
 		Ne := pick(c, 6, 8)
 		c.Cov.Bound["edits"] = fmt.Sprintf("single edits of honest proofs of <=3 leaves, N in 4..%d, all entry points", Ne)
 		enumEdits(c, 4, Ne, 3, false, vers, props)
+		ost := offsetStates(offsetBases(c.Thorough()), 2)
+		c.Cov.Bound["offset_start"] = fmt.Sprintf("%d states (bases %v, 0..2 added leaves): triples T<=1 P<=1 with mismatches; single edits of honest proofs", len(ost), offsetBases(c.Thorough()))
+		enumTriples(c, tripleCfg{States: ost, T: 1, P: 1, Mismatch: true, Vers: offsetVerifiers(true)}, props)
+		enumEditsStates(c, ost, 2, false, offsetVerifiers(true), props, nil)
 	}
 }
